@@ -172,14 +172,17 @@ func usableQuirks(parent *pki.Entity) []quirk {
 	return out
 }
 
+// inst is one log instance of the second part: its environment, what its backend stored, and a
+// real client talking to its handlers.
+type inst struct {
+	name string
+	env  *ctfeenv.Env
+	log  *backendLog
+	lc   *client.LogClient
+}
+
 func realEntries(w *lib.Writer, r *rand.Rand) {
 	roots := []*pki.Entity{pki.Issue(pki.Opts{CN: "entries root A", IsCA: true, KeyIdx: 2}, nil), pki.Issue(pki.Opts{CN: "entries root B", IsCA: true, KeyKind: "rsa2048", KeyIdx: 1}, nil)}
-	type inst struct {
-		name string
-		env  *ctfeenv.Env
-		log  *backendLog
-		lc   *client.LogClient
-	}
 	mk := func(name string, st *chainStore, c cache.IssuanceChainCache) *inst {
 		o := ctfeenv.Options{Roots: roots, Dir: *lib.OutDir}
 		if st != nil {
@@ -420,4 +423,5 @@ func realEntries(w *lib.Writer, r *rand.Rand) {
 			Impl:   map[string]interface{}{"returned": len(all), "error": fmt.Sprint(errA)},
 			PropOK: ok, Note: fmt.Sprintf("client.GetEntries(0,%d) returned %d entries, error %v, or entries out of place", len(subs)-1, len(all), errA), Tags: []string{"entries:batch:" + in.name}})
 	}
+	prefixRanges(w, r, insts, subs)
 }
